@@ -332,6 +332,26 @@ def g_points(ctx, rng, i):
             cols[j].append(_on_line(aa, bb, tt[j]))
     PC = [g.PointCollection(np.stack(cc).reshape(shape + (n,))) for cc in cols]
     _try(g.crossratio, *PC)
+    # every mix of single points and collections in the four positions (a single point broadcasts against the collections)
+    if len(shape) == 1 and k > 1:
+        singles = [g.Point(_on_line(a, b, PARAMS[int(j)])) for j in rng.choice(len(PARAMS), size=4, replace=False)]
+        coll_line = [g.PointCollection(np.stack([_on_line(a, b, PARAMS[int(j)]) for j in rng.choice(len(PARAMS), size=k)])) for _ in range(4)]
+        for mask in rng.choice(np.arange(1, 15), size=4, replace=False):
+            _try(g.crossratio, *[coll_line[j] if (int(mask) >> j) & 1 else singles[j] for j in range(4)])
+        if n == 3:
+            # the dual situation: lines of a pencil, single and collection mixed
+            vtx = gen.nonzero_vec(rng, 3, 3)
+            def pencil_line():
+                for _ in range(20):
+                    h = gen.nonzero_vec(rng, 3, 4)
+                    h = np.cross(vtx, h)
+                    if np.any(h):
+                        return h
+                return np.cross(vtx, np.array([1, 0, 0]))
+            ls = [g.Line(pencil_line()) for _ in range(4)]
+            lcs = [g.LineCollection(np.stack([pencil_line() for _ in range(k)])) for _ in range(4)]
+            for mask in (2, 5, 10, 12):
+                _try(g.crossratio, *[lcs[j] if (mask >> j) & 1 else ls[j] for j in range(4)])
     # outer-product broadcasting: a, b along one axis (k, 1), c, d along the other (1, k) -- points of one line
     kk = 3
     outer_pts = [g.PointCollection(np.stack([_on_line(a, b, PARAMS[int(j)]) for j in rng.choice(len(PARAMS), size=kk)]).reshape(sh + (n,)))
